@@ -7,6 +7,7 @@ import (
 	"os"
 	"regexp"
 	"sort"
+	"strconv"
 	"strings"
 	"testing"
 )
@@ -94,6 +95,18 @@ func genC10(seed int64, tier string) *Scenario {
 	if tier == "thorough" && r.Intn(4) == 0 {
 		k = 5
 	}
+	resolveProfile := r.Intn(4) == 0
+	complOp := -1
+	if resolveProfile {
+		// the client has received a completion list (behind an `=`: the function entry then resolves
+		// to a snippet that depends on flags kept in the completion cache) and resolves an item of
+		// it while the next completion request is already on its way
+		sc.Ops = append(sc.Ops, Op{Kind: "change", Path: "a.lua", Edits: []Edit{{Full: true, Text: "gfoo = 1\nlocal handler = func\nlocal other = gf\n"}}},
+			Op{Kind: "req", Method: "completion", Path: "a.lua", Pos: &Pos{1, 20}})
+		complOp = len(sc.Ops) - 1
+		cur["a.lua"] = "gfoo = 1\nlocal handler = func\nlocal other = gf\n"
+		sc.Knobs["resolve"] = true
+	}
 	from := len(sc.Ops)
 	writers := 0
 	lastReader := ""
@@ -114,7 +127,16 @@ func genC10(seed int64, tier string) *Scenario {
 		if len(pos) > 0 && r.Intn(5) > 0 {
 			p = pos[r.Intn(len(pos))]
 		}
-		wantWriter := (i == k-1 && writers == 0 && !meta) || r.Intn(5) < 2
+		if resolveProfile && i < 2 {
+			if i == 0 {
+				sc.Ops = append(sc.Ops, Op{Kind: "req", Method: "resolve", N: r.Intn(40), Arg: strconv.Itoa(complOp), Async: true})
+			} else {
+				cp := []Pos{{0, 1}, {2, 16}, {1, 20}, {2, 0}}[r.Intn(4)]
+				sc.Ops = append(sc.Ops, Op{Kind: "req", Method: "completion", Path: "a.lua", Pos: &cp, Async: true})
+			}
+			continue
+		}
+		wantWriter := (i == k-1 && writers == 0 && !meta && !resolveProfile) || r.Intn(5) < 2
 		if !wantWriter {
 			m := []string{"hover", "definition", "references", "rename", "documentSymbol", "workspaceSymbol", "completion", "highlight", "varColor", "hover", "references", "completion", "signatureHelp", "documentColor"}[r.Intn(14)]
 			if meta && r.Intn(3) > 0 {
